@@ -842,6 +842,15 @@ func goodWeight(c *Case, lb LBS, total uint64, seed int, step uint32, index uint
 	return sum
 }
 
+// specQuorum is the oracle's own quorum: the protocol's fractions in the
+// protocol's arithmetic, independent of the implementation's OverThreshold
+func specQuorum(t uint64, pos bool) uint64 {
+	if pos {
+		return uint64(uint32(float64(t) * 0.685))
+	}
+	return uint64(uint32(float64(t) * 0.585))
+}
+
 // propertyHolds: the necessary conditions C01 puts on an accepted header
 func propertyHolds(c *Case, b *built, rx relax) bool {
 	cs := c.H.Cons
@@ -882,7 +891,7 @@ func propertyHolds(c *Case, b *built, rx relax) bool {
 	}
 	// precommit quorum
 	w := goodWeight(c, c.LB, b.total, c.SeedH.Seed, stepPrecommit, c.H.Val.RoundIndex, vt, c.H.Val.Votes, c.H.Val.Agg, cs.Round, rx)
-	if w < quorumOf(vt, true) {
+	if w < specQuorum(vt, true) {
 		return false
 	}
 	if c.H.Number > 0 && c.H.Number%params.ACoCHTFrequency == 0 {
@@ -897,7 +906,7 @@ func propertyHolds(c *Case, b *built, rx relax) bool {
 			cvt = c.CertH.CVT
 		}
 		w := goodWeight(c, c.CertLB, b.certTotal, c.CertH.Seed, stepCertificate, c.H.Val.RoundIndex, cvt, c.H.Cert.Votes, c.H.Cert.Agg, cs.Round, rx)
-		if w < quorumOf(cvt, false) {
+		if w < specQuorum(cvt, false) {
 			return false
 		}
 	}
@@ -1013,6 +1022,9 @@ func (g *gen) lookback(nKeysUsed int, big bool) LBS {
 		}
 		if r.Chance(3) {
 			v.Stake = 0
+		}
+		if r.Chance(3) && i > 0 {
+			v.Bls = perm[i-1] // two validators registered the same BLS key
 		}
 		lb.Vals = append(lb.Vals, v)
 	}
@@ -1179,7 +1191,17 @@ func (g *gen) readd(c *Case, lb LBS, u *UVS, dropped VoteS, q uint64, seed int, 
 				d.Proof.Role = 2
 			}
 		default:
-			d.Proof.Seed += 1 + r.Intn(3)
+			switch r.Intn(3) {
+			case 0:
+				d.Proof.Seed += 1 + r.Intn(3)
+			case 1:
+				d.Proof.Seed = c.SeedH.Seed // the precommit seed (a replay if this is the certificate list)
+			default:
+				d.Proof.Seed = c.CertH.Seed // the certificate seed (a replay if this is the precommit list)
+			}
+			if d.Proof.Seed == dropped.Proof.Seed {
+				d.Proof.Seed += 5
+			}
 		}
 		u.Votes = append(u.Votes, d)
 		u.Agg.Parts = append(u.Agg.Parts, sigOf(d))
@@ -1497,6 +1519,16 @@ func (g *gen) one(res *vf.Result) Case {
 	if attacked {
 		return c
 	}
+	if certRound && r.Chance(6) { // an otherwise honest certificate-round header whose look-back header is unusable
+		if r.Bool() {
+			c.CertH.Version = 77
+			res.Count("forge:cert_header_unknown_version")
+		} else {
+			c.CertH.ConsNil = true
+			res.Count("forge:cert_header_without_consensus")
+		}
+		return c
+	}
 	switch r.Intn(10) {
 	case 0, 1, 2:
 		nf = 0
@@ -1509,11 +1541,29 @@ func (g *gen) one(res *vf.Result) Case {
 		res.Count("forge:none")
 	}
 	for f := 0; f < nf; f++ {
-		switch r.Intn(10) {
-		case 0, 1, 2, 3:
+		switch r.Intn(11) {
+		case 0, 1, 2:
 			g.forgeVotes(&c, c.LB, &c.H.Val, c.SeedH.Seed, stepPrecommit, res)
-		case 4:
-			if certRound {
+		case 10:
+			g.forgeProposer(&c, total, res)
+		case 3, 4:
+			if certRound && r.Chance(45) {
+				cvt, _ := verCVT(&c, c.CertH.Version)
+				switch r.Intn(3) {
+				case 0: // certificate votes cast by the precommit look-back set instead of the certificate look-back set
+					c.H.Cert.Votes = honestVotes(c.LB, total, c.CertH.Seed, stepCertificate, c.H.Val.RoundIndex, cvt, true)
+					c.H.Cert.Agg = aggOf(c.LB, c.H.Cert.Votes, c.H.Cons.Round, c.H.Val.RoundIndex)
+					res.Count("forge:certificates_by_wrong_lookback_set")
+				case 1: // whole certificate list drawn with the precommit seed
+					c.H.Cert.Votes = honestVotes(c.CertLB, certTotal, c.SeedH.Seed, stepCertificate, c.H.Val.RoundIndex, cvt, true)
+					c.H.Cert.Agg = aggOf(c.CertLB, c.H.Cert.Votes, c.H.Cons.Round, c.H.Val.RoundIndex)
+					res.Count("forge:certificates_for_precommit_seed")
+				default: // whole certificate list drawn with the precommit step
+					c.H.Cert.Votes = honestVotes(c.CertLB, certTotal, c.CertH.Seed, stepPrecommit, c.H.Val.RoundIndex, cvt, true)
+					c.H.Cert.Agg = aggOf(c.CertLB, c.H.Cert.Votes, c.H.Cons.Round, c.H.Val.RoundIndex)
+					res.Count("forge:certificates_with_precommit_step")
+				}
+			} else if certRound {
 				g.forgeVotes(&c, c.CertLB, &c.H.Cert, c.CertH.Seed, stepCertificate, res)
 			} else {
 				g.forgeVotes(&c, c.LB, &c.H.Val, c.SeedH.Seed, stepPrecommit, res)
@@ -1603,7 +1653,14 @@ func (g *gen) forgeProposer(c *Case, total uint64, res *vf.Result) {
 	r := g.r
 	cs := &c.H.Cons
 	tag := ""
-	switch r.Intn(11) {
+	k := r.Intn(15)
+	if k >= 11 {
+		k = 2 + (k-11)%2 // priority forgeries carry double weight
+	}
+	if k == 14 {
+		k = 1
+	}
+	switch k {
 	case 0: // a validator that won no seat proposes
 		for _, v := range c.LB.Vals {
 			if v.MainBad {
@@ -1666,7 +1723,14 @@ func (g *gen) forgeProposer(c *Case, total uint64, res *vf.Result) {
 func (g *gen) forgeFrame(c *Case, res *vf.Result) {
 	r := g.r
 	tag := ""
-	switch r.Intn(8) {
+	k := r.Intn(8)
+	certRound := c.H.Number%params.ACoCHTFrequency == 0
+	if certRound && r.Bool() {
+		k = int(r.Pick([]uint64{2, 3, 7}))
+	} else if !certRound && (k == 2 || k == 3 || k == 7) {
+		k = int(r.Pick([]uint64{0, 1, 4, 5, 6}))
+	}
+	switch k {
 	case 0:
 		c.H.Cons.Nil = true
 		tag = "consensus_undecodable"
@@ -1729,9 +1793,8 @@ func runGen(seed uint64, n int, outDir, corpusDir, variant string) {
 	perKey := map[string]int{}
 	count := 0
 	emit := func(c Case) {
-		if c.Variant == "" {
-			c.Variant = variant
-		}
+		c.Variant = variant
+		c.Verdict, c.Err = 0, ""
 		b := observe(&c)
 		if count > 0 {
 			sb.WriteString(";\n")
@@ -1762,9 +1825,6 @@ func runGen(seed uint64, n int, outDir, corpusDir, variant string) {
 		}
 	}
 	for _, c := range loadCorpus(corpusDir) {
-		if c.Variant != "" && c.Variant != variant && !(c.Variant == "asis" && variant == "") {
-			continue
-		}
 		emit(c)
 		res.Count("corpus")
 	}
